@@ -1,13 +1,137 @@
-(* Properties/C20.v — placeholder until Model/Lmf.v and its theorems are assembled. *)
+(* Properties/C20.v — invalid WN-LMF is rejected as a whole (model: Model/Lmf.v written from wn/lmf.py: read_header, the expat handlers
+   driven by the per-version element tables regenerated from the source into Gen/LmfTables.v, and the _validate functions).
+   [has_unknown version t] = the tree contains an element that the DTD of that version does not allow at that place;
+   [has_dup_single version t] = a child that may occur once occurs twice; [missing_id t] = an element that needs an id has none.
+   That a rejected document leaves the database unchanged is C06 (the add is one transaction) together with the fact that the
+   model's add works on the loaded resource only: load failing means add is never entered.
+   Statements only: every theorem is closed by `exact` of a lemma proved under Proofs/, followed by
+   Print Assumptions.  (Statement texts were printed by Coq from the proved lemmas by harness/mkprops.py and are
+   fixed from then on.) *)
 From Coq Require Import String.
-From Coq Require Import ZArith List.
+From Coq Require Import ZArith List Bool.
 Import ListNotations.
-Require Import WnV.Base.Sx WnV.Gen.LmfTables.
-(* the element tables the loader is driven by: every 1.0 element is a 1.1 element *)
-Example C20_elements_monotone :
-  forallb (fun kv : string * string =>
-             existsb (fun kv' : string * string => String.eqb (fst kv) (fst kv'))
-                     (match find (fun e => String.eqb (fst e) "1.1") VALID_ELEMS with Some e => snd e | None => [] end))
-          (match find (fun e => String.eqb (fst e) "1.0") VALID_ELEMS with Some e => snd e | None => [] end) = true.
-Proof. vm_compute. reflexivity. Qed.
-Print Assumptions C20_elements_monotone.
+Require Import WnV.Base.Sx WnV.Gen.LmfTables WnV.Model.Val WnV.Model.XmlText WnV.Model.Lmf.
+Require Import WnV.Proofs.XmlTextProofs WnV.Proofs.LmfProofs.
+Local Open Scope Z_scope.
+
+(* ---- the header: accepted exactly when line 1 is the XML declaration and line 2 a DOCTYPE of a supported version; every supported version has an accepted header; otherwise LMFError (or a decoding error) *)
+Theorem C20_read_header_spec :
+  forall l1 l2 v : str,
+         read_header l1 l2 = Ok v <->
+         header_line l1 = xmldecl /\
+         utf8_valid (header_line l2) = true /\ assoc (header_line l2) doctypes = Some v.
+Proof. exact (@read_header_spec). Qed.
+Print Assumptions C20_read_header_spec.
+
+Theorem C20_read_header_errors :
+  forall (l1 l2 : str) (e : err),
+         read_header l1 l2 = Err e ->
+         e = ELmf /\ (header_line l1 <> xmldecl \/ assoc (header_line l2) doctypes = None) \/
+         e = EOther /\ header_line l1 = xmldecl /\ utf8_valid (header_line l2) = false.
+Proof. exact (@read_header_errors). Qed.
+Print Assumptions C20_read_header_errors.
+
+Theorem C20_supported_iff :
+  forall v : str,
+         (exists l1 l2 : str, read_header l1 l2 = Ok v) <-> str_mem v supported_versions = true.
+Proof. exact (@supported_iff). Qed.
+Print Assumptions C20_supported_iff.
+
+(* ---- structure: an element not allowed by the declared version (including elements of other versions), a repeated single child, or a missing id make load fail, wherever they occur in the document *)
+Theorem C20_unknown_element_rejected :
+  forall (version : str) (t : xtree),
+         has_unknown version t = true -> exists e : err, parse_doc version t = Err e.
+Proof. exact (@unknown_element_rejected). Qed.
+Print Assumptions C20_unknown_element_rejected.
+
+Theorem C20_unknown_element_load_rejected :
+  forall (version : str) (t : xtree),
+         has_unknown version t = true -> exists e : err, load_tree version t = Err e.
+Proof. exact (@unknown_element_load_rejected). Qed.
+Print Assumptions C20_unknown_element_load_rejected.
+
+Theorem C20_duplicate_single_rejected :
+  forall (version : str) (t : xtree),
+         has_dup_single version t = true -> exists e : err, parse_doc version t = Err e.
+Proof. exact (@duplicate_single_rejected). Qed.
+Print Assumptions C20_duplicate_single_rejected.
+
+Theorem C20_duplicate_single_load_rejected :
+  forall (version : str) (t : xtree),
+         has_dup_single version t = true -> exists e : err, load_tree version t = Err e.
+Proof. exact (@duplicate_single_load_rejected). Qed.
+Print Assumptions C20_duplicate_single_load_rejected.
+
+Theorem C20_missing_id_rejected :
+  forall (version : str) (t : xtree),
+         missing_id t = true -> exists e : err, load_tree version t = Err e.
+Proof. exact (@missing_id_rejected). Qed.
+Print Assumptions C20_missing_id_rejected.
+
+Theorem C20_load_rejects_unknown_element :
+  forall (l1 l2 : str) (t : xtree),
+         (forall version : str, has_unknown version t = true) -> exists e : err, load l1 l2 t = Err e.
+Proof. exact (@load_rejects_unknown_element). Qed.
+Print Assumptions C20_load_rejects_unknown_element.
+
+Theorem C20_load_rejects_duplicate_single :
+  forall (l1 l2 : str) (t : xtree),
+         (forall version : str, has_dup_single version t = true) ->
+         exists e : err, load l1 l2 t = Err e.
+Proof. exact (@load_rejects_duplicate_single). Qed.
+Print Assumptions C20_load_rejects_duplicate_single.
+
+Theorem C20_load_rejects_missing_id :
+  forall (l1 l2 : str) (t : xtree),
+         missing_id t = true -> exists e : err, load l1 l2 t = Err e.
+Proof. exact (@load_rejects_missing_id). Qed.
+Print Assumptions C20_load_rejects_missing_id.
+
+Theorem C20_load_rejects_for_version :
+  forall (l1 l2 : str) (t : xtree) (version : str),
+         read_header l1 l2 = Ok version ->
+         has_unknown version t = true \/ has_dup_single version t = true \/ missing_id t = true ->
+         exists e : err, load l1 l2 t = Err e.
+Proof. exact (@load_rejects_for_version). Qed.
+Print Assumptions C20_load_rejects_for_version.
+
+(* ---- what dump writes is accepted again: its first two lines are a header of the version it was asked to write *)
+Theorem C20_dump_header_accepted :
+  forall (version : str) (resource : val) (text : str),
+         dump version resource = Ok text ->
+         exists line1 line2 rest : list Z,
+           text = line1 ++ [c_nl] ++ line2 ++ [c_nl] ++ rest /\
+           read_header (line1 ++ [c_nl]) (line2 ++ [c_nl]) = Ok version.
+Proof. exact (@dump_header_accepted). Qed.
+Print Assumptions C20_dump_header_accepted.
+
+(* ---- non-vacuity: concrete trees with each fault *)
+Theorem C20_has_unknown_ex :
+  has_unknown (str_of_string "1.0")
+           (XNode (str_of_string "LexicalResource") [] []
+              [XNode (str_of_string "Lexicon") [] [] [XNode (str_of_string "Requires") [] [] []]]) =
+         true.
+Proof. exact (@has_unknown_ex). Qed.
+Print Assumptions C20_has_unknown_ex.
+
+Theorem C20_has_dup_single_ex :
+  has_dup_single (str_of_string "1.1")
+           (XNode (str_of_string "LexicalResource") [] []
+              [XNode (str_of_string "Lexicon") [] []
+                 [XNode (str_of_string "LexicalEntry") [] []
+                    [XNode (str_of_string "Lemma") [] [] []; XNode (str_of_string "Sense") [] [] [];
+                     XNode (str_of_string "Lemma") [] [] []]]]) = true.
+Proof. exact (@has_dup_single_ex). Qed.
+Print Assumptions C20_has_dup_single_ex.
+
+Theorem C20_missing_id_ex :
+  missing_id
+           (XNode (str_of_string "LexicalResource") [] []
+              [XNode (str_of_string "Lexicon") [(str_of_string "id", str_of_string "x")] []
+                 [XNode (str_of_string "LexicalEntry") [(str_of_string "id", str_of_string "e")] []
+                    [XNode (str_of_string "Lemma") [] [] [];
+                     XNode (str_of_string "Sense") [(str_of_string "synset", str_of_string "s")] []
+                       []]]]) = true.
+Proof. exact (@missing_id_ex). Qed.
+Print Assumptions C20_missing_id_ex.
+
